@@ -147,6 +147,56 @@ def cases(ctx):
             continue
         seen.add(key)
         out.append(single_case(s, t, r, L))
+    # a cast-less rule of T re-rooted onto a node for which S already declares a cast (and the other way round): each rule keeps its
+    # own cast mapping, a cast-less rule judges the document's own value
+    for cid, s_cast, t_cast in (("s_casts", "{str: int}", "None"), ("t_casts", "None", "{str: int}")):
+        # (both rules casting the same node differently is outside: the rules of one schema share one cast copy by design, C15)
+        for sval in ("'3'", "'true'"):
+            body = f"""
+doc = {{'cfg': {{'n': {sval}, 'm': u1}}, 'k': u2}}
+before = tx(doc)
+def mkS():
+    return Schema([Rule(('cfg', 'n'), Value.is_instance(int) | Value.equal_to('true'), cast={s_cast}), Rule(('k',), Value.greater_than(t))])
+T = Schema([Rule(('n',), Value.is_instance(str) | Value.equal_to(True), cast={t_cast}), Rule(('m',), Value.not_equal_to(None))])
+t_casts = [(dict(r.cast) if r.cast is not None else None) for r in T.rules]
+S = mkS()
+own = list(S.rules)
+s0 = mkS().validate(doc)
+tv = T.validate(doc['cfg'])
+S.add_schema(T, DataPath('cfg'))
+added = [r for r in S.rules if not any(r is o for o in own)]
+ok = note('two rules added', len(added) == 2 and len(S.rules) == 4)
+ok = ok and same('each re-rooted rule keeps the cast mapping of the rule it came from', sorted(tx(r.cast) for r in added), sorted(tx(c) for c in t_casts))
+ok = ok and note("S's own rules keep theirs", [tx(r.cast) for r in own] == [tx(r.cast) for r in mkS().rules])
+sv = S.validate(doc)
+ok = ok and same('validity = S before and T at R', sv.is_valid, s0.is_valid and tv.is_valid)
+ok = ok and same('failures = S before + T at R', sv.num_failures, s0.num_failures + tv.num_failures)
+ok = ok and same('T unchanged', [tx(r.cast) for r in T.rules], [tx(c) for c in t_casts]) and same('T judges as before', summarize_validation(T.validate(doc['cfg'])), summarize_validation(tv))
+ok = ok and note('document unchanged', tx(doc) == before)
+return ok
+"""
+            out.append(mk_case(f"c18.add.cast_collision.{cid}.{sval.strip(chr(39))}", [("t", "int"), ("u1", "Union[int, bool, None]"), ("u2", "int")], body,
+                               pre=[f"BU({L}, t, u1, u2)"], stubs=["sym_repr"]))
+    # T's conditions may hold any Python object as an argument (compared by identity; not copyable): the re-rooted rules judge with
+    # the very same argument objects
+    body = """
+class Token:
+    pass
+sent = Token()   # equal only to itself
+reg = {'x': 1, 'y': 2}
+T = Schema([Rule(('v',), Value.equal_to(sent)), Rule(('w',), Value.in_([sent, t])), Rule(('z',), Value.in_(reg.keys()))])
+doc = {'r': {'v': sent, 'w': u1, 'z': 'x'}, 'v': u2, 'q': [{'v': u2, 'w': sent, 'z': 'zz'}]}
+tv1, tv2 = T.validate(doc['r']), T.validate(doc['q'][0])
+S = Schema([Rule(('v',), Value.equal_to(u2))])
+S.add_schema(T, DataPath('r'))
+S.add_schema(T, DataPath('q', 0))
+ok = note('six rules added', len(S.rules) == 7 and len(T.rules) == 3)
+sv = S.validate(doc)
+ok = ok and same('validity = T at both roots', sv.is_valid, tv1.is_valid and tv2.is_valid)
+ok = ok and same('failures = T at both roots', sv.num_failures, tv1.num_failures + tv2.num_failures)
+return ok
+"""
+    out.append(mk_case("c18.add.identity_args", [("t", "int"), ("u1", "Union[int, bool, None]"), ("u2", "int")], body, pre=[f"BU({L}, t, u1, u2)"], stubs=["sym_repr"]))
     # re-rooted rules keep their cast and doc (and are judged like T's own rules on the node at R)
     for root, rdoc in (("a", "doc['a']"), ("l0", "doc['l'][0]")):
         body = f"""
